@@ -1,11 +1,19 @@
 import RQ.Lemmas.RoundTripFix
-import RQ.Lemmas.RoundTripNum
-import RQ.Lemmas.RoundTripLine
-import RQ.Lemmas.RoundTripHunk
-import RQ.Lemmas.RoundTripName
-import RQ.Lemmas.RoundTripPath
-/-! Helper lemmas for C12: the parser inverts the writer (numbers, names, lines, hunks, headers). -/
-namespace RQ.Write
-open RQ RQ.Parse
+import RQ.Lemmas.RoundTripPatch
+/-!
+# Helper lemmas for C12: the parser inverts the writer
 
-end RQ.Write
+Layers (one file each, `RQ/Lemmas/RoundTrip*.lean`):
+* `Fix`      – the writer only depends on what `SamePatch` compares (`writePatch_same`)
+* `Num`      – decimal / octal numbers (`parseNumber_natDec`, `parseMode_oct6`)
+* `Line`     – `parseHunkLine (writeLine t c ++ rest)`
+* `Hunk`     – `findClosestMatch`, `writeBody` vs `hunkLoop`, hunk header, `parseHunk_writeHunk`, `hunksLoop_written`
+* `Name`     – `parseFilename (writeName n ++ rest)`
+* `Path`     – `stripPath 0 (stripPath n raw) = stripPath n raw`
+* `Dispatch` – `parseMetadataLine` / `parseGitMetadataLine` / `parsePatchLine` as prefix tables
+* `Loop`     – one iteration of `filePatchLoop` per kind of line
+* `Inv`, `InvFile` – invariants of an accepted patch (`parsePatch_inv`)
+* `Local`    – the line parsers only look at the first line (`parsePatchLine_local`)
+* `File`     – a written file-patch header is read back (`filePatch_tail`)
+* `Patch`    – header replay (`header_run`), sequence of file patches, `roundtrip`
+-/
